@@ -18,6 +18,7 @@ import Proofs.VdrRefuse
 import Proofs.VdrFinal
 import Proofs.VdrFs
 import Proofs.VdrHyp
+import Proofs.VdrCover
 import Martian.VdrWalk
 import Proofs.VdrWalk
 
@@ -45,7 +46,10 @@ theorem merge_preserves_totals (rs : List (Option KReport)) :
 theorem mergeEvents_preserves_total (l : List VEvent) : sumDelta (mergeEvents l) = sumDelta l :=
   sumDelta_mergeEvents l
 
-/-- **inside_pipestance**, on the resolved location.  Under every
+/-- **inside_pipestance**, on the resolved location (for entry lists of ANY origin, with the
+shape of the enumeration as a hypothesis — the statement transports `h`/`hreal` along
+`removed ⊆ s0.disk`; for what the walk enumerates `inside_pipestance_walked` and
+`removed_in_place_or_nothing` need no such hypothesis and supersede it).  Under every
 interleaving and for every configuration, whatever is removed was an entry of
 the fork's own files/ or tmp/ directories, as enumerated by the walk.
 ASSUMED about that enumeration (this is what `util.Walk` not following links
@@ -72,24 +76,6 @@ theorem inside_pipestance (c : Cfg) (s0 : St) (evs : List Ev) (root : Path) (fs 
     rw [parentsReal_acts_in_place fs d.path (hreal d h1) e he]
     exact h d h1
 
-/-- … and when a directory ABOVE the fork is a link (a relocated sub-pipeline
-directory: `ParentsReal` fails for every entry of the fork), VDR refuses the
-fork — `Node.vdrCheckSymlink`, since the repair of this round applied to the
-fork's own transitions too — i.e. no temp cleaning and no kill pass runs, and
-then nothing at all is removed (`refused_fork_untouched` below).  So for every
-fork: either every removed path is acted on in place, inside the pipestance,
-or nothing is removed. -/
-theorem removed_in_place_or_nothing (c : Cfg) (s0 : St) (evs : List Ev) (root : Path) (fs : List FsEnt)
-    (fr : s0.removed = []) (h : ∀ d ∈ s0.disk, pathIsInside d.path root = true)
-    (hcase : (∀ d ∈ s0.disk, ParentsReal fs d.path) ∨ (∀ e ∈ evs, e.removes = false)) :
-    ∀ d ∈ (run c s0 evs).removed, ∀ e ∈ fs, pathIsInside (throughLink e d.path) root = true := by
-  rcases hcase with hreal | href
-  · intro d hd
-    exact (inside_pipestance c s0 evs root fs fr h hreal d hd).2.2
-  · intro d hd
-    rw [(run_refused c s0 evs href).2.1, fr] at hd
-    cases hd
-
 /-- **inside_pipestance_walked.**  `ParentsReal` is not an assumption for what the
 walk enumerates: if the fork's entries are what `util.Walk` reports below a
 directory `root` whose content is the (well-formed: names non-empty, without
@@ -114,6 +100,58 @@ theorem inside_pipestance_walked (c : Cfg) (s0 : St) (evs : List Ev) (root : Pat
   · obtain ⟨k, hk⟩ := hdisk d h1
     have hp := walkBelow_parentsReal t hw root d.path k hk
     exact ⟨walkBelow_inside t root d.path k hk, hp, parentsReal_acts_in_place _ _ hp⟩
+
+/-- **removed_in_place_or_nothing.**  The dichotomy, PROVED, with the guard in
+the model: `refusedBy fs chain` is what `Fork.vdrAcrossSymlink` computes — is
+one of the directories the code lstats on the way to the fork's files (`chain`:
+the node's directory and the pipelines' above it, the fork directory, every
+job's directory, files and temp directory; fork/job/files level since the
+repair of the last round) a symbolic link of the file system `fs` —, and
+`runG` is a history under that guard (refused: the removing passes return at
+once).  If the fork's entries are what the walk reports below `root` (tree
+`t`, well-formed) and every link of the file system is either one of the
+guarded directories or lies below `root`, then EITHER the fork is refused and
+nothing at all is removed, reported or made final, OR every removed path has
+only real directories above it — no link of `fs` is a proper ancestor —, is
+acted on where it is written and lies inside `root`.  (One walk root; a fork
+has several — each job's files and temp directory —: links below ANOTHER root
+of the same fork are covered only if the roots do not nest, which is not
+modelled.) -/
+theorem removed_in_place_or_nothing (c : Cfg) (s0 : St) (evs : List Ev) (root : Path) (t : FsTree)
+    (fs : List FsEnt) (chain : List Path) (hw : t.wf = true) (fr : s0.removed = [])
+    (hdisk : ∀ d ∈ s0.disk, ∃ k, (d.path, k) ∈ walkBelow root t)
+    (hfs : ∀ e ∈ fs, e.link ≠ none → e.path ∈ chain ∨ e ∈ entsBelow root t) :
+    (refusedBy fs chain = true ∧ (runG true c s0 evs).removed = [] ∧ (runG true c s0 evs).disk = s0.disk ∧
+      (runG true c s0 evs).report = s0.report ∧ (runG true c s0 evs).final = s0.final) ∨
+    (refusedBy fs chain = false ∧
+      ∀ d ∈ (runG (refusedBy fs chain) c s0 evs).removed,
+        pathIsInside d.path root = true ∧ ParentsReal fs d.path ∧ ∀ e ∈ fs, throughLink e d.path = d.path) := by
+  cases hr : refusedBy fs chain with
+  | true =>
+    obtain ⟨h1, h2, h3, h4⟩ := runG_true_removed c s0 evs
+    exact Or.inl ⟨rfl, by rw [h1, fr], h2, h3, h4⟩
+  | false =>
+    refine Or.inr ⟨rfl, ?_⟩
+    rw [runG_false]
+    intro d hd
+    rcases (shr_run c s0 evs).removed d hd with h1 | h1
+    · rw [fr] at h1; cases h1
+    · obtain ⟨k, hk⟩ := hdisk d h1
+      have hp : ParentsReal fs d.path := by
+        intro e he hl
+        rcases hfs e he hl with hc | hb
+        · exact absurd hc (not_refused hr e he hl)
+        · exact walkBelow_no_link_above t hw root d.path k hk e hb hl
+      exact ⟨walkBelow_inside t root d.path k hk, hp, parentsReal_acts_in_place _ _ hp⟩
+
+/-- the guard is not vacuous either way: a linked files directory refuses the fork, a link
+below the walk root does not -/
+theorem guard_refuses_linked_files_dir :
+    refusedBy [⟨"/ps/N/fork0/chnk0-u1/files".toList, some "/elsewhere".toList⟩]
+      ["/ps/N".toList, "/ps/N/fork0".toList, "/ps/N/fork0/chnk0-u1".toList, "/ps/N/fork0/chnk0-u1/files".toList] = true ∧
+    refusedBy [⟨"/ps/N/fork0/chnk0-u1/files/l".toList, some "/elsewhere".toList⟩]
+      ["/ps/N".toList, "/ps/N/fork0".toList, "/ps/N/fork0/chnk0-u1".toList, "/ps/N/fork0/chnk0-u1/files".toList] = false := by
+  decide
 
 /-- the walk does not follow a link at its root (fix 950c00b) nor below it: a tree with a
 directory, a link to a directory outside, a cycle and a dangling link -/
@@ -179,15 +217,18 @@ it; no argument without holders): after ANY history in which every post node
 has completed, the complete-state pass (`Pipestance.VDRKill`) makes the fork
 final and every entry left below its files/ directories is referenced (equal,
 ancestor or descendant; for a symbolic link also through what it points to)
-by an argument the top level or a retain holds. -/
-theorem reclaims_all_unreferenced (c : Cfg) (s0 : St) (evs : List Ev) (ok : CfgOK c s0)
-    (wf : DiskWF s0.disk) (fr : Fresh s0) (h0 : s0.report.count = 0 ∧ s0.report.size = 0)
+by an argument the top level or a retain holds.  For ANY shape of the disk:
+no `DiskWF` (nested links, temp entries anywhere) and no assumption on the
+report — the proof keeps only that every entry below files/ has a cache entry
+describing it (`Covered`, Proofs/VdrCover.lean), not the one-to-one alignment
+the accounting needs. -/
+theorem reclaims_all_unreferenced (c : Cfg) (s0 : St) (evs : List Ev) (ok : CfgOK c s0) (fr : Fresh s0)
     (hv : c.volatile = true) (bk : BK s0) (hf : s0.final = false)
     (hdone : ∀ p ∈ s0.postNodes, p.1 ∈ (run c s0 evs).doneNodes) :
     (run c s0 (evs ++ [.kill])).final = true ∧
     ∀ d ∈ (run c s0 (evs ++ [.kill])).disk, isTmp d.kind = false →
       ∃ a, Holds s0 a none ∧ refsN c a (d.path :: d.alts) = true := by
-  obtain ⟨x, r⟩ := joint_run ok wf hv bk (XInv.init s0 fr h0) (RInv.init c s0 fr bk hf) evs
+  obtain ⟨v, r⟩ := VR.run ok hv bk (VInv.init s0 fr) (RInv.init c s0 fr bk hf) evs
   have hrun : run c s0 (evs ++ [.kill]) = kill c (run c s0 evs) := by
     unfold run; rw [List.foldl_append]; rfl
   rw [hrun]
@@ -196,7 +237,7 @@ theorem reclaims_all_unreferenced (c : Cfg) (s0 : St) (evs : List Ev) (ok : CfgO
     intro p hp
     obtain ⟨q, hq, e⟩ := r.sh.keys p hp
     rw [← e]; exact hdone q hq
-  exact ⟨hfin, (r.kill ok wf hv x).fin hfin⟩
+  exact ⟨hfin, (VR.kill hv v r).2.fin hfin⟩
 
 /-- **tmp_gone_when_final.**  For every configuration and interleaving: once
 the fork's final report is written, no entry of the split / chunk / join temp
@@ -340,21 +381,40 @@ tables, after any history in which its post nodes completed, the
 complete-state pass leaves only what the top level or a retain references. -/
 theorem reclaims_all_unreferenced_built (tr : PTree) (w : wfOps [] [] (opsOf tr) = true) (p : Node) (t : Tab)
     (h : (p, t) ∈ build (opsOf tr)) (c : Cfg) (disk : List DiskEnt) (evs : List Ev)
-    (ok : CfgOK c (t.st disk)) (wf : DiskWF disk) (hv : c.volatile = true)
+    (ok : CfgOK c (t.st disk)) (hv : c.volatile = true)
     (hdone : ∀ q ∈ t.postNodes, q.1 ∈ (run c (t.st disk) evs).doneNodes) :
     (run c (t.st disk) (evs ++ [.kill])).final = true ∧
     ∀ d ∈ (run c (t.st disk) (evs ++ [.kill])).disk, isTmp d.kind = false →
       ∃ a, Holds (t.st disk) a none ∧ refsN c a (d.path :: d.alts) = true :=
-  reclaims_all_unreferenced c (t.st disk) evs ok wf ⟨rfl, rfl⟩ ⟨rfl, rfl⟩ hv ((build_bk w h).st disk) rfl hdone
+  reclaims_all_unreferenced c (t.st disk) evs ok ⟨rfl, rfl⟩ hv ((build_bk w h).st disk) rfl hdone
 
 theorem clone_after_history_consistent (c : Cfg) (s0 : St) (evs : List Ev) (ok : CfgOK c s0)
-    (wf : DiskWF s0.disk) (fr : Fresh s0) (h0 : s0.report.count = 0 ∧ s0.report.size = 0)
-    (hv : c.volatile = true) (bk : BK s0) (hf : s0.final = false) (disk : List DiskEnt) :
+    (fr : Fresh s0) (hv : c.volatile = true) (bk : BK s0) (hf : s0.final = false) (disk : List DiskEnt) :
     BK (cloneFork (run c s0 evs) disk) := by
-  obtain ⟨_, r⟩ := joint_run ok wf hv bk (XInv.init s0 fr h0) (RInv.init c s0 fr bk hf) evs
+  obtain ⟨_, r⟩ := VR.run ok hv bk (VInv.init s0 fr) (RInv.init c s0 fr bk hf) evs
   exact cloneFork_bk r.bk disk
 
 /-! ### definitional unfoldings (documentation of the model, not guarantees) -/
+
+/-- (the case distinction as a HYPOTHESIS — `hcase` — kept from an earlier round; the proved
+dichotomy is `removed_in_place_or_nothing`)  … and when a directory ABOVE the fork is a link (a relocated sub-pipeline
+directory: `ParentsReal` fails for every entry of the fork), VDR refuses the
+fork — `Node.vdrCheckSymlink`, since the repair of this round applied to the
+fork's own transitions too — i.e. no temp cleaning and no kill pass runs, and
+then nothing at all is removed (`refused_fork_untouched` below).  So for every
+fork: either every removed path is acted on in place, inside the pipestance,
+or nothing is removed. -/
+theorem removed_in_place_or_nothing_cases (c : Cfg) (s0 : St) (evs : List Ev) (root : Path) (fs : List FsEnt)
+    (fr : s0.removed = []) (h : ∀ d ∈ s0.disk, pathIsInside d.path root = true)
+    (hcase : (∀ d ∈ s0.disk, ParentsReal fs d.path) ∨ (∀ e ∈ evs, e.removes = false)) :
+    ∀ d ∈ (run c s0 evs).removed, ∀ e ∈ fs, pathIsInside (throughLink e d.path) root = true := by
+  rcases hcase with hreal | href
+  · intro d hd
+    exact (inside_pipestance c s0 evs root fs fr h hreal d hd).2.2
+  · intro d hd
+    rw [(run_refused c s0 evs href).2.1, fr] at hd
+    cases hd
+
 
 /-- `cloneFork` is a value copy of the two tables in the model, so `BK` transfers by rewriting
 (non-sharing of the real Go maps is probed on real forks, not proved).  Dynamic fork expansion: the fork `cloneFork`
@@ -419,6 +479,20 @@ example :
     (run exCfg exSt [.removeEmpty, .cacheMap, .kill, .restart, .nodeDone "C", .kill]).disk.map (·.path) =
       ["/p/files/a.txt".toList] ∧
     (cloneFork (run exCfg exSt [.removeEmpty, .cacheMap, .kill]) []).postNodes = [("C", ["a", "b"])] := by
+  decide
+
+/-- reclaim on a disk that violates `LinksTop` (a link nested below an unreferenced directory,
+pointing to a named file — the disk of `report_undercounts_nested_link`): final, and what is left
+is referenced -/
+example :
+    let c : Cfg := { volatile := true, strict := true, splits := false
+                     argNames := [("a", ["/p/f/t".toList])], argFiles := [("a", ["/p/f/t".toList])]
+                     initArgs := [("a", [none])] }
+    let s : St := { fileArgs := [("a", [none])], postNodes := [],
+                    disk := [⟨"/p/f/t".toList, 1, .out, [], 0⟩, ⟨"/p/f/sub".toList, 4096, .out, [], 0⟩,
+                             ⟨"/p/f/sub/l".toList, 6, .out, ["/p/f/t".toList], 0⟩] }
+    linksTopB s.disk = false ∧ cfgOKB c s = true ∧
+    (run c s [.cacheMap, .kill]).final = true ∧ (run c s [.cacheMap, .kill]).disk.map (·.path) = ["/p/f/t".toList] := by
   decide
 
 /-- a refused fork: the history of Props/C04.lean's example without its kill passes removes nothing -/
